@@ -2,6 +2,7 @@ import StepModel.P21.LexLemmas
 import StepModel.P21.LexNumber
 import StepModel.P21.LexGap
 import StepModel.P21.FloatShape
+import StepModel.P21.FloatRead
 import StepModel.P21.AggrLemmas
 import StepModel.Generated.P21RWGen
 import StepModel.Generated.P21LexGen
@@ -1040,6 +1041,51 @@ theorem C09_writer_real_round_trips_model (cfg : LexCfg) (lookup : Int → RefLo
       .ok ⟨.null, .real bits, { left := sp.reverse ++ (attrWrite dblOpsRT .real (.real bits)).reverse, right := d :: rest }⟩ :=
   C09_write_read_real dblOpsRT cfg lookup nullable bits ⟨dbl_fmtShortest_shape bits hfin, dbl_fmtShortest_stable bits h17⟩ hnn hbuf
     sp rest d hsp hd
+
+/-- the same with the hypothesis reduced to **arithmetic** (final proof round): `h17` of the theorem above is a statement about
+    a text — `%.17G`'s layout in three styles, dropped trailing zeros and decimal point, the printed exponent, `strtod`'s lexical
+    stage.  All of that is discharged by `dbl_fmtG_readsBack` (`P21/FloatRead.lean`); what is left, `SigDigitsReadBack 17 bits`,
+    mentions no text: the 17 significant digits `Dbl.sigDigits` computes for the double's `m · 2^e2` are a 17-digit number, and
+    with any number of trailing zeros removed `Dbl.ofDecimal` rounds them back to `bits` — "17 significant digits determine a
+    binary64" (10^16 > 2^53) stated for the model's own `ofRatio`.  It is needed for non-zero values only (±0 is proved), and
+    only when neither 15 nor 16 digits convert back. -/
+theorem C09_writer_real_round_trips_arith (cfg : LexCfg) (lookup : Int → RefLookup) (nullable : Bool) (bits : Nat)
+    (hlt : bits < 2 ^ 64) (hfin : (bits / Dbl.pow2 52 % 2048 == 2047) = false)
+    (h17 : (bits / Dbl.pow2 52 % 2048 == 0 && bits % Dbl.pow2 52 == 0) = false → SigDigitsReadBack 17 bits)
+    (hnn : dblOpsRT.isRealNull bits = false)
+    (hbuf : cfg.realBuf = 0 ∨ (attrWrite dblOpsRT .real (.real bits)).length < cfg.realBuf)
+    (sp rest : List Byte) (d : Byte) (hsp : Gap cfg sp) (hd : d = 44 ∨ d = 41) :
+    attrRead dblOpsRT cfg lookup .real nullable (IStream.ofBytes (attrWrite dblOpsRT .real (.real bits) ++ sp ++ d :: rest)) =
+      .ok ⟨.null, .real bits, { left := sp.reverse ++ (attrWrite dblOpsRT .real (.real bits)).reverse, right := d :: rest }⟩ :=
+  C09_writer_real_round_trips_model cfg lookup nullable bits hfin (dbl_fmtG_readsBack 17 (by decide) bits hlt hfin h17) hnn hbuf
+    sp rest d hsp hd
+
+/-- … and for the 15-digit writer (`dblOps`, the unrepaired `WriteReal` and `asStr`): `hstable` of
+    `C09_writer_real_reads_back_model` reduced the same way — the written token reads back to the value whenever the double's 15
+    significant digits are rounded back to it (`SigDigitsReadBack 15 bits`: true of every double that came from a decimal of at
+    most 15 digits, DBL_DIG; false e.g. of 0.1 + 0.2, `C09_writer_fifteen_digits_witness`) -/
+theorem C09_writer_real_reads_back_arith (cfg : LexCfg) (lookup : Int → RefLookup) (nullable : Bool) (bits : Nat)
+    (hlt : bits < 2 ^ 64) (hfin : (bits / Dbl.pow2 52 % 2048 == 2047) = false)
+    (h15 : (bits / Dbl.pow2 52 % 2048 == 0 && bits % Dbl.pow2 52 == 0) = false → SigDigitsReadBack 15 bits)
+    (hnn : dblOps.isRealNull bits = false)
+    (hbuf : cfg.realBuf = 0 ∨ (attrWrite dblOps .real (.real bits)).length < cfg.realBuf)
+    (sp rest : List Byte) (d : Byte) (hsp : Gap cfg sp) (hd : d = 44 ∨ d = 41) :
+    attrRead dblOps cfg lookup .real nullable (IStream.ofBytes (attrWrite dblOps .real (.real bits) ++ sp ++ d :: rest)) =
+      .ok ⟨.null, .real bits, { left := sp.reverse ++ (attrWrite dblOps .real (.real bits)).reverse, right := d :: rest }⟩ := by
+  have h := dbl_fmtG_readsBack 15 (by decide) bits hlt hfin h15
+  have hst : ∃ dec, parseFloatText (dblOps.fmtG15 bits) = some dec ∧ dblOps.ofDecimal dec = some bits := by
+    show ∃ dec, parseFloatText (Dbl.fmtG 15 bits) = some dec ∧ Dbl.ofDecimal dec = some bits
+    unfold Dbl.readsBack at h
+    cases hp : parseFloatText (Dbl.fmtG 15 bits) with
+    | none => rw [hp] at h; cases h
+    | some dd => rw [hp] at h; exact ⟨dd, rfl, by simpa using h⟩
+  exact C09_writer_real_reads_back_model cfg lookup nullable bits hfin hst hnn hbuf sp rest d hsp hd
+
+/-- ±0 needs no hypothesis at all: `0.` / `-0.` reads back to the same bit pattern (the sign of zero is kept) -/
+theorem C09_writer_real_zero_round_trips (p : Nat) (hp : 1 ≤ p) :
+    Dbl.readsBack (Dbl.fmtG p 0) 0 = true ∧ Dbl.readsBack (Dbl.fmtG p Dbl.signBit) Dbl.signBit = true :=
+  ⟨dbl_fmtG_readsBack p hp 0 (by decide) (by decide) (fun h => absurd h (by decide)),
+   dbl_fmtG_readsBack p hp Dbl.signBit (by decide) (by decide) (fun h => absurd h (by decide))⟩
 
 /-- what 15 digits lose, and what the repair restores (kernel evaluation): 0.1 + 0.2 = 0x3FD3333333333334 is written `0.3` by
     the 15-digit writer, which reads back as 0x3FD3333333333333 — another double; the repaired writer writes
